@@ -265,7 +265,7 @@ class C18(Profile):
   technique = ("deterministic simulation: small formula graphs (every reference subset on 3 "
                "columns in the thorough tier, sampled on 4-6) evaluated under seeded permutations of "
                "the work-item order and after incremental edits that create and break cycles")
-  quick_runs = 240
+  quick_runs = 400
   max_events = 14
 
   def config(self, rng, tier):
@@ -420,7 +420,7 @@ class C18Full(C18):
   formula columns (each column reads any subset of {k0,k1,k2,d}: 16^3 = 4096 graphs, 8 per run,
   each reached incrementally from the previous one); all other runs are the sampled profile."""
   name = "c18"
-  thorough_runs = 512 + 1500
+  thorough_runs = 512 + 6000
 
   def config(self, rng, tier):
     cfg = super(C18Full, self).config(rng, tier)
@@ -625,8 +625,8 @@ class C30(HistoryProfile):
   technique = ("deterministic simulation: the recorded event list of a seeded run is replayed in "
                "fresh interpreters under other PYTHONHASHSEED values; per-reply and final-state "
                "digests must be identical")
-  quick_runs = 60
-  thorough_runs = 900
+  quick_runs = 100
+  thorough_runs = 1500
   max_events = 26
   p_undo = 0.08
   p_redo_after_undo = 0.5
@@ -724,7 +724,7 @@ class C24(Profile):
   name = "c24"
   technique = ("deterministic simulation of the transport: the real Sandbox marshal framing over a "
                "simulated pipe, with formulas and trigger formulas returning hostile Python values")
-  quick_runs = 200
+  quick_runs = 700
   max_events = 16
   sandbox_death_is_violation = True
 
